@@ -51,6 +51,14 @@ static bool readopt_slot(World &w, int slot, cJSON *root, std::string &why) {
     return true;
 }
 
+static void collect_blocks(const cJSON *n, std::vector<const void *> &owned, std::vector<const void *> &constkeys, size_t &budget);
+static long owned_block_count(const cJSON *n) {
+    std::vector<const void *> o, c;
+    size_t budget = 4000000;
+    collect_blocks(n, o, c, budget);
+    return (long)o.size();
+}
+
 // ------------------------------------------------------------------ C19 sort
 static bool key_le(const std::string &a, const std::string &b, bool cs) {
     if (cs) return a.compare(b) <= 0;
@@ -186,7 +194,12 @@ DEFOP(pop) {
     std::string path;
     switch (kind) {
         case 0: path = pick_addable(st.A(2)); if (deliberate_fail) path += "/nope/deeper"; put(op, "path", mv_str(path)); put(op, "value", gen_value(vr, go)); break;
-        case 1: path = pick_existing(st.A(2), false); if (deliberate_fail) path += "/missing"; put(op, "path", mv_str(path)); break;
+        case 1:
+            path = pick_existing(st.A(2), false);
+            if (w.cfg.shared_world && (tweak % 4) == 0) path = "";  // removal of the whole document: left open by C16, but its memory accesses count for C20
+            else if (deliberate_fail) path += "/missing";
+            put(op, "path", mv_str(path));
+            break;
         case 2: path = pick_existing(st.A(2), (tweak % 5) == 0); if (deliberate_fail) path += "/missing"; put(op, "path", mv_str(path)); put(op, "value", gen_value(vr, go)); break;
         case 3: {
             path = pick_existing(st.A(2), true);
@@ -203,6 +216,10 @@ DEFOP(pop) {
             std::string from = pick_existing(st.A(3), kind == 4 && (tweak % 7) == 0);
             path = pick_addable(st.A(2));
             if ((tweak % 13) == 0 && kind == 5) path = from + "/child";  // move into own child
+            if ((tweak % 19) == 0 && kind == 5) {                         // move of a location onto itself; sometimes a location that differs from a member only in letter case
+                if ((tweak % 38) == 0) for (size_t ci = from.size(); ci-- > 0 && from[ci] != '/';) { if (from[ci] >= 'a' && from[ci] <= 'z') { from[ci] = (char)(from[ci] - 32); break; } if (from[ci] >= 'A' && from[ci] <= 'Z') { from[ci] = (char)(from[ci] + 32); break; } }
+                path = from;
+            }
             if (deliberate_fail) from += "/missing";
             put(op, "from", mv_str(from));
             put(op, "path", mv_str(path));
@@ -272,6 +289,7 @@ DEFOP(patch_apply) {
     struct FreeRef { MVal *&m; ~FreeRef() { mv_free(m); } } fr{ref};
     bool corrupt = w.pending_corrupt;
     std::string ptxt = mv_dump(w.pending_patch, 700), dtxt = mv_dump(doc, 300);
+    long live0 = (long)asim::live_blocks(), owned0 = owned_block_count(doc->c) + owned_block_count(patch);
     int status = cJSONUtils_ApplyPatchesCaseSensitive(doc->c, patch);
     // the document must remain a well-formed tree whatever happened
     size_t budget = 4000000;
@@ -282,6 +300,16 @@ DEFOP(patch_apply) {
         return;
     }
     if (!struct_wellformed(doc->c, true, budget, 0, ww)) { w.mismatch("patch-wellformed", "document is not a well-formed tree after the patch: " + ww + " [doc " + dtxt + " patch " + ptxt + " status " + I(status) + "]"); return; }
+    {
+        // neither crashes nor leaks: every block allocated during the call is now part of the document (or the patch), and
+        // every block that left them was released
+        long live1 = (long)asim::live_blocks(), owned1 = owned_block_count(doc->c) + owned_block_count(patch);
+        // (the ledger is shared by all tasks in the sched engine: no per-call accounting there)
+        if (!w.cfg.shared_world && live1 - live0 != owned1 - owned0) {
+            w.mismatch("patch-leak", "applying the patch changed the number of allocated blocks by " + I(live1 - live0) + " but the document and the patch together changed by " + I(owned1 - owned0) + " blocks (" + (live1 - live0 > owned1 - owned0 ? "blocks leaked" : "blocks released that are still referenced") + ") [doc " + dtxt + " patch " + ptxt + " status " + I(status) + "]");
+            return;
+        }
+    }
     if (!corrupt) {
         if ((status == 0) != ref_ok) {
             w.mismatch("patch-status", "ApplyPatchesCaseSensitive returned " + I(status) + " but RFC 6902 evaluation " + (ref_ok ? "succeeds" : "fails (" + rwhy + ")") + " [doc " + dtxt + " patch " + ptxt + "]");
@@ -652,6 +680,89 @@ DEFOP(dup_cyclic) {
     w.stats.probes["dup_cyclic_refused"]++;
     w.mark_nontrivial();
     w.log.add("dup_cyclic len " + I(len) + " -> NULL");
+}
+
+DEFOP(dup_wide) {
+    // a flat container with about CJSON_CIRCULAR_LIMIT children is well-formed and shallow: Duplicate must copy it
+    static const int widths[] = {9999, 10000, 10001, 10002, 15000, 25000};
+    int n = widths[(uint64_t)st.A(0) % 6];
+    int depth = (int)((uint64_t)st.A(1) % 3);  // wrap the wide array in 0, 1 or 100 arrays
+    if (depth == 2) depth = 100;
+    std::vector<int> v((size_t)n);
+    for (int i = 0; i < n; i++) v[(size_t)i] = i;
+    cJSON *root = cJSON_CreateIntArray(v.data(), n);
+    if (!root) { w.noop(st, "alloc"); return; }
+    for (int d = 0; d < depth; d++) { cJSON *p = cJSON_CreateArray(); if (!p) break; cJSON_AddItemToArray(p, root); root = p; }
+    cJSON *r = cJSON_Duplicate(root, 1);
+    std::string ctx = " [array of " + I(n) + " numbers inside " + I(depth) + " arrays]";
+    if (!r) { cJSON_Delete(root); w.mismatch("dup-wide", "a well-formed shallow tree was refused" + ctx); return; }
+    bool eq = cJSON_Compare(root, r, 1) != 0;
+    const cJSON *in = r;
+    for (int d = 0; d < depth && in; d++) in = in->child;
+    int size = in ? cJSON_GetArraySize(in) : -1;
+    cJSON_Delete(r);
+    cJSON_Delete(root);
+    if (size != n) { w.mismatch("dup-wide", "copy holds " + I(size) + " items" + ctx); return; }
+    if (!eq) { w.mismatch("dup-wide", "copy does not compare equal" + ctx); return; }
+    w.stats.probes["dup_wide"]++;
+    w.mark_nontrivial();
+    w.log.add("dup_wide " + I(n) + " depth " + I(depth) + " ok");
+}
+DEFOP(dup_refcycle) {
+    // a cycle that runs only through a reference node: list = [..]; AddItemReferenceToArray(list, list)
+    int n = 1 + (int)((uint64_t)st.A(0) % 4);
+    bool obj = st.A(1) & 1;
+    cJSON *list = obj ? cJSON_CreateObject() : cJSON_CreateArray();
+    if (!list) { w.noop(st, "alloc"); return; }
+    for (int i = 0; i < n; i++) { if (obj) cJSON_AddNumberToObject(list, "n", i); else cJSON_AddItemToArray(list, cJSON_CreateNumber(i)); }
+    cJSON_bool added = obj ? cJSON_AddItemReferenceToObject(list, "self", list) : cJSON_AddItemReferenceToArray(list, list);
+    if (!added) { cJSON_Delete(list); w.noop(st, "reference not added"); return; }
+    size_t live_before = asim::live_blocks();
+    cJSON *r = cJSON_Duplicate(list, 1);
+    size_t live_after = asim::live_blocks();
+    if (r) {
+        cJSON_Delete(list);  // the reference node does not own the children it points at
+        w.mismatch("dup-cyclic", "a structure that is cyclic through a reference node was duplicated instead of refused");
+        return;
+    }
+    cJSON_Delete(list);
+    if (live_after != live_before) { w.mismatch("dup-cyclic-leak", "refusing a reference cycle leaves " + I((int64_t)(live_after - live_before)) + " blocks allocated"); return; }
+    w.stats.probes["dup_refcycle_refused"]++;
+    w.mark_nontrivial();
+    w.log.add("dup_refcycle -> NULL");
+}
+// C19: objects beyond 2^16 members (merge sort recursion deeper than 16)
+DEFOP(sort_big) {
+    static const int sizes[] = {65536, 65537, 70000, 131073};
+    int n = sizes[(uint64_t)st.A(0) % 4];
+    bool cs = st.A(1) & 1;
+    cJSON *o = cJSON_CreateObject();
+    if (!o) { w.noop(st, "alloc"); return; }
+    Rng r((uint64_t)st.A(2));
+    for (int i = 0; i < n; i++) {
+        char key[24];
+        snprintf(key, sizeof key, "%c%llu", "kKqQ"[r.below(4)], (unsigned long long)r.below(1000000000ull));
+        if (!cJSON_AddNumberToObject(o, key, i)) { cJSON_Delete(o); w.noop(st, "alloc"); return; }
+    }
+    if (cs) cJSONUtils_SortObjectCaseSensitive(o); else cJSONUtils_SortObject(o);
+    int count = 0;
+    const cJSON *prev = nullptr;
+    std::string bad;
+    for (const cJSON *c = o->child; c; c = c->next) {
+        if (++count > n) { bad = "more members than before"; break; }
+        if (prev) {
+            if (c->prev != prev) { bad = "backward link does not mirror the forward link"; break; }
+            if (!key_le(prev->string, c->string, cs)) { bad = std::string("keys not non-decreasing: '") + prev->string + "' before '" + c->string + "'"; break; }
+        }
+        prev = c;
+    }
+    if (bad.empty() && count != n) bad = "member count " + I(count) + " instead of " + I(n);
+    if (bad.empty() && o->child->prev != prev) bad = "first child's backward link does not designate the last child";
+    cJSON_Delete(o);
+    if (!bad.empty()) { w.mismatch("sort-big", "object of " + I(n) + " members after sorting: " + bad); return; }
+    w.stats.probes["sort_big"]++;
+    w.mark_nontrivial();
+    w.log.add("sort_big " + I(n) + " ok");
 }
 
 // ------------------------------------------------------------------ C14 hook epochs
